@@ -113,7 +113,7 @@ func (its *TransactionDatatype) BeginTransaction(
 	txCtx *TransactionContext,
 	newTxnOp bool,
 ) *TransactionContext {
-	if its.isLocked && its.txCtx == txCtx {
+	if txCtx != nil && its.isLocked && its.txCtx == txCtx {
 		verifhook.Yield("tx.begin.reentrant")
 		return nil // called after DoTransaction() succeeds.
 	}
@@ -190,9 +190,9 @@ func (its *TransactionDatatype) unlock() {
 	if its.isLocked {
 		its.txCtx = nil
 		its.success = true
+		its.isLocked = false // cleared while the mutex is still held
 		its.mutex.Unlock()
 		verifhook.Yield("tx.unlock.afterMutexUnlock")
-		its.isLocked = false
 	}
 }
 
